@@ -24,6 +24,9 @@ from . import errprop_c09 as E
 from .tlc import MachineryError
 
 TOL_FD = 1e-5
+# get_params_error(method="3-point") and correct_params differentiate numerically themselves with fixed
+# steps (5e-4 on the gradient, 1e-3 on the NLL, no extrapolation): their truncation error is theirs
+TOL_NUMERIC = 2e-3
 
 MASSES = {"A": 4.6, "B": 2.00698, "C": 2.01028, "D": 0.13957}
 
@@ -52,8 +55,8 @@ def _cfg(variant):
 
 
 TRUTH = [
-    {"A->R_BD.CR_BD->B.D_total_0r": 1.5, "A->R_BD.CR_BD->B.D_total_0i": 1.1, "A->R_CD.BR_CD->C.D_total_0r": 0.12, "A->R_CD.BR_CD->C.D_total_0i": -0.16},
-    {"A->R_BD.CR_BD->B.D_total_0r": 1.6, "A->R_BD.CR_BD->B.D_total_0i": -0.9, "A->R_CD.BR_CD->C.D_total_0r": 0.15, "A->R_CD.BR_CD->C.D_total_0i": 0.14},
+    {"A->R_BD.CR_BD->B.D_total_0r": 1.5, "A->R_BD.CR_BD->B.D_total_0i": 1.1, "A->R_CD.BR_CD->C.D_total_0r": 0.35, "A->R_CD.BR_CD->C.D_total_0i": -0.45},
+    {"A->R_BD.CR_BD->B.D_total_0r": 1.6, "A->R_BD.CR_BD->B.D_total_0i": -0.9, "A->R_CD.BR_CD->C.D_total_0r": 0.4, "A->R_CD.BR_CD->C.D_total_0i": 0.3},
     {"A->R_BD.CR_BD->B.D_total_0r": 0.8, "A->R_BD.CR_BD->B.D_total_0i": 1.9, "A->R_CD.BR_CD->C.D_total_0r": 1.2, "A->R_CD.BR_CD->C.D_total_0i": 0.4},
 ]
 
@@ -164,7 +167,7 @@ def _one_model(ctx, variant, rng, mg, quick, exact_rows):
 
     tag = "model%d" % variant
     seed = ctx.seed + 1000 * variant
-    c, amp, data, phsp, nd = _build(variant, seed, 1500, 3000)
+    c, amp, data, phsp, nd = _build(variant, seed, 1000 if quick else 1500, 2000 if quick else 3000)
     vm = amp.vm
     with _quiet():
         fr = c.fit(data=[data], phsp=[phsp], method="BFGS")
@@ -231,7 +234,7 @@ def _one_model(ctx, variant, rng, mg, quick, exact_rows):
                 err = c.get_params_error(pdict, data=[data], phsp=[phsp], **kw)
                 V = np.array(c.inv_he)
             ctx.count(1, distinct_key=(tag, pname, mname))
-            tol = 2e-4 if mname in ("3-point", "correct_params") else TOL_FD  # these differentiate numerically themselves (steps 5e-4, 1e-3)
+            tol = TOL_NUMERIC if mname in ("3-point", "correct_params") else TOL_FD
             for i, nm in enumerate(names):
                 mg.add("params_error:" + mname, float(err[nm]), sref[i])
                 if not _close(float(err[nm]), sref[i], tol):
@@ -241,6 +244,17 @@ def _one_model(ctx, variant, rng, mg, quick, exact_rows):
             sc = np.sqrt(np.outer(np.diag(Vref), np.diag(Vref)))
             if not np.allclose(V / sc, Vref / sc, rtol=0, atol=20 * tol):
                 ctx.violation("%s:inv_he:%s:%s" % (tag, mname, pname), {"got": V.tolist(), "expected": Vref.tolist()})
+        if pname == "minimum":
+            # as in the work flow: the FitResult is handed over and receives the errors
+            with _quiet():
+                vm.set_all(x0.tolist())
+                fr.params = dict(fcn.get_params())
+                c.fit_params = fr
+                err = c.get_params_error(fr, data=[data], phsp=[phsp])
+            ctx.count(1, distinct_key=(tag, pname, "fit_result"))
+            got = [float(fr.error.get(nm, float("nan"))) for nm in names]
+            if not np.allclose(got, sref, rtol=TOL_FD):
+                ctx.violation("%s:fit_result_error" % tag, {"got": got, "expected": sref.tolist()})
         with _quiet():
             vm.set_all(x0.tolist())
             he, inv = cal_hesse_error(fcn, pdict, check_posi_def=True, save_npy=False)
@@ -282,7 +296,7 @@ def _one_model(ctx, variant, rng, mg, quick, exact_rows):
         ctx.count(1, distinct_key=(tag, "bounds", ka, kb))
         for i, nm in enumerate(names):
             mg.add("params_error:3-point_bounded", float(err[nm]), sref[i])
-            if not _close(float(err[nm]), sref[i], 2e-4):
+            if not _close(float(err[nm]), sref[i], TOL_NUMERIC):
                 ctx.violation("%s:get_params_error:3-point:bounds=%s-%s" % (tag, ka, kb), {"parameter": nm, "bounds": {k: list(v) for k, v in bd.items()}, "got": float(err[nm]), "expected": float(sref[i])})
                 break
     results["bound_configurations"] = n_b
@@ -315,39 +329,66 @@ def _one_model(ctx, variant, rng, mg, quick, exact_rows):
                     outv.append(part[(i, i)] if i == j else part[(i, j)] - part[(i, i)] - part[(j, j)])
         return np.array(outv)
 
+    n_ff_skip = 0
     F0 = fracs(x0)
     J, dis = _fd_grad_vec(fracs, x0, 0.2 * sref)
     results["fit_fraction_fd_disagreement"] = float("%.3g" % (dis.max() / np.abs(J).max()))
     fracs(x0)
     covs = [("inv_he", inv_at_min)] + [("random%d" % k, _cov(rng, n, float(np.mean(sref)))) for k in range(2 if quick else 6)]
     n_ff = 0
+    diag_idx = [k for k, key in enumerate(keys) if not isinstance(key, tuple)]
+
+    def lookup(d, key):
+        if key in d:
+            return d[key]
+        if isinstance(key, tuple) and (key[1], key[0]) in d:
+            return d[(key[1], key[0])]
+        return None
+
     for vname, V in covs:
         ref = np.sqrt(np.clip(np.einsum("ki,ij,kj->k", J, V, J), 0, None))
-        for method in ("old", "new"):
+        jsum = J[diag_idx].sum(axis=0)
+        ref_sum = math.sqrt(max(jsum @ V @ jsum, 0.0))
+        paths = ["old", "new"] + (["config_old", "config_new"] if vname == "inv_he" else [])
+        for method in paths:
+            extra = {}
             with _quiet():
                 vm.set_all(x0.tolist())
-                ret = fit_fractions(amp, phsp, V, params_at_min, batch=1300, res=list(res), method=method)
-                if method == "old":
+                if method.startswith("config_"):
+                    c.inv_he = V
+                    ret = c.cal_fitfractions(params_at_min, mcdata=phsp, batch=900, method=method[7:])
+                else:
+                    ret = fit_fractions(amp, phsp, V, params_at_min, batch=900, res=list(res), method=method)
+                if method.endswith("old"):
                     fr_, er_ = ret
                 else:
-                    fr_, er_ = ret.get_frac(sum_diag=False)
+                    fr_, er_ = ret.get_frac(sum_diag=True)
+                    extra["sum_diag"] = (float(fr_["sum_diag"]), float(er_["sum_diag"]))
             for k, key in enumerate(keys):
                 ctx.count(1, distinct_key=(tag, "ff", method, str(key), vname))
                 n_ff += 1
                 kk = "x".join(key) if isinstance(key, tuple) else key
-                if key not in fr_:
+                fv, ev = lookup(fr_, key), lookup(er_, key)
+                if fv is None or ev is None:
                     ctx.violation("%s:fit_fraction_missing:%s:%s" % (tag, method, kk), {"keys": [str(x) for x in fr_]})
                     continue
-                if not _close(float(fr_[key]), F0[k], 1e-8, 1e-12):
-                    ctx.violation("%s:fit_fraction_value:%s:%s" % (tag, method, kk), {"got": float(fr_[key]), "expected": float(F0[k])})
+                if not _close(float(fv), F0[k], 1e-8, 1e-12):
+                    ctx.violation("%s:fit_fraction_value:%s:%s" % (tag, method, kk), {"got": float(fv), "expected": float(F0[k])})
                     continue
                 # ill-conditioned finite-difference points are discarded (DESIGN 4)
                 if dis[k].max() > 1e-6 * max(np.abs(J[k]).max(), 1e-9):
+                    n_ff_skip += 1
                     continue
-                mg.add("fit_fraction_error:" + method, float(er_[key]), ref[k])
-                if not _close(float(er_[key]), ref[k], TOL_FD, 1e-9):
-                    ctx.violation("%s:fit_fraction_error:%s:%s" % (tag, method, kk), {"covariance": vname, "got": float(er_[key]), "expected sqrt(gVg)": float(ref[k]),
+                mg.add("fit_fraction_error:" + method, float(ev), ref[k])
+                if not _close(float(ev), ref[k], TOL_FD, 1e-9):
+                    ctx.violation("%s:fit_fraction_error:%s:%s" % (tag, method, kk), {"covariance": vname, "got": float(ev), "expected sqrt(gVg)": float(ref[k]),
                                                                                "fd_gradient": J[k].tolist()})
+            if "sum_diag" in extra:
+                fv, ev = extra["sum_diag"]
+                n_ff += 1
+                if not _close(fv, float(F0[diag_idx].sum()), 1e-8) or not _close(ev, ref_sum, TOL_FD, 1e-9):
+                    ctx.violation("%s:fit_fraction_error:%s:sum_diag" % (tag, method), {"covariance": vname, "got": [fv, ev], "expected": [float(F0[diag_idx].sum()), ref_sum]})
+    results["fit_fraction_fd_discarded"] = n_ff_skip
     results["fit_fraction_comparisons"] = n_ff
     ctx.sample({"model": tag, "free": names, "sigma(H_fd^-1)": [float("%.6g" % v) for v in sref],
                 "fit_fractions": {("x".join(k) if isinstance(k, tuple) else k): float("%.6g" % F0[i]) for i, k in enumerate(keys)}})
